@@ -40,7 +40,9 @@ func genC16(kind int) func(g *Gen, tier string) *Case {
 		var ops []Tok
 		pool := g.ElementPool(6, false)
 		x, y := pool[0], pool[1]
-		if g.Chance(0.2) {
+		if g.Chance(0.2) || (kind == 5 && g.Rare(0.25, 6, 3)) {
+			// both clients update the same element (Top-K: more often — its insert is a read-modify-write
+			// of the element's own entry, so the same element from two clients is the sharpest case)
 			y = x
 		}
 		switch kind {
